@@ -44,6 +44,8 @@ int snoopy_cli_action_disable ()
     char * newEtcLdSoPreloadContent = 0;
     size_t newEtcLdSoPreloadContentLengthMax;
     unsigned int copyLength;
+    size_t skipLength;
+    const char * afterEntryPtr = NULL;
     const char * entryPtr = NULL;
     char * entryLine = NULL;
     const char * srcPosPtr = 0;
@@ -95,9 +97,16 @@ int snoopy_cli_action_disable ()
     // Skip the entry line we're removing, copy the rest
     destPosPtr = newEtcLdSoPreloadContent + copyLength;
     entryLine  = snoopy_util_string_copyLineFromContent(entryPtr);
-    srcPosPtr  = entryPtr + strlen(entryLine);
-    copyLength = (unsigned int) (strlen(curEtcLdSoPreloadContent) - (entryPtr - curEtcLdSoPreloadContent) - strlen(entryLine));
-    if (*srcPosPtr == '\n') {
+    skipLength = strlen(entryLine);
+    // If other entries share the line with ours, remove only our entry (and the whitespace following it)
+    afterEntryPtr  = entryLine + strlen(libsnoopySoPath);
+    afterEntryPtr += strspn(afterEntryPtr, " \t");
+    if ((*afterEntryPtr != '\0') && (*afterEntryPtr != '#')) {
+        skipLength = (size_t) (afterEntryPtr - entryLine);
+    }
+    srcPosPtr  = entryPtr + skipLength;
+    copyLength = (unsigned int) (strlen(curEtcLdSoPreloadContent) - (entryPtr - curEtcLdSoPreloadContent) - skipLength);
+    if ((skipLength == strlen(entryLine)) && (*srcPosPtr == '\n')) {
         srcPosPtr++;
         copyLength--;
     }
